@@ -30,6 +30,9 @@ def shapes(pal=0):
         dict(n="S1", k="Source", a=dict(vo=5.0, rs=0.0), p=[], g="", r=""), mk("R1", "RL", ["S1"]),
         dict(n="L1", k="ILoad", a=dict(ii=0.04, iis=0.0, loss=True), p=["R1"], g="", r="", pc={"a": 0.05}),
         dict(n="L2", k="PLoad", a=dict(pwr=0.3, pwrs=0.0, loss=True), p=["S1"], g="", r="", pc={"a": 0.02})])
+    # one component of every kind that shares a base class with another kind (ILoad / RLoad derive from PLoad, VLoss from RLoss)
+    out["kinds"] = dict(name="kinds", phases=None, comps=[S("S1"), mk("R1", "RL", ["S1"]), mk("V1", "VLc", ["R1"]), mk("L1", "IL", ["V1"]), mk("L2", "RO", ["S1"]),
+                                                         mk("L3", "PL", ["R1"]), mk("D1", "RDc", ["S1"]), mk("L4", "ILx", ["D1"])])
     m = mux_spec([("S", "live"), ("SC", "live")], pal, False, below="std")
     m["phases"] = None
     for c in m["comps"]:
@@ -38,7 +41,7 @@ def shapes(pal=0):
     return out
 
 
-CONFIGS = ["default", "kind", "name", "both", "cluster", "lr", "empty-kind", "falsy-name"]
+CONFIGS = ["default", "kind", "name", "both", "cluster", "lr", "empty-kind", "falsy-name", "base-kind"]
 
 
 def config_for(label, spec):
@@ -59,6 +62,10 @@ def config_for(label, spec):
     if label == "falsy-name":  # name-level values that are falsy but legal must still beat the kind level
         c["node"][first["k"]] = {"peripheries": "3", "penwidth": "2", "fixedsize": "true"}
         c["node"][first["n"]] = {"peripheries": 0, "penwidth": 0, "fixedsize": 0, "xlabel": ""}
+    if label == "base-kind":   # an entry for a kind styles THAT kind only (exact class), not the kinds derived from it
+        c["node"]["PLoad"] = {"shape": "octagon", "peripheries": "2"}
+        c["node"]["RLoss"] = {"shape": "hexagon", "color": "red"}
+        c["node"]["Converter"] = {"style": "dashed"}
     if label == "empty-kind":
         c["node"]["Source"] = {}
         c["node"]["default"]["fontsize"] = "9"
